@@ -33,6 +33,14 @@ Clauses
 
 All runs use a Dither pre-processor and a fixed --seed, so a seed that depends on the resume state shows up
 in C10.resume.identical.  Exact equality throughout (no tolerance).
+
+Input classes ("over all utterance counts / any valid map", "with a fixed --seed"):
+  * utterance ids are NOT fixed-width: within each id set some id is a proper prefix / suffix / infix of an id
+    that comes EARLIER in the map (so the longer one is already listed when the kill happens and the shorter one
+    is still to do), and some id extends an earlier, shorter one ("listed" means: is a line of the manifest);
+  * one fixture uses the boundary value --seed=0 (a fixed seed like any other) in a kill/resume case, a
+    same-command-twice case (kill before the first save, then the re-run) and a --num-workers case.
+The ids and the seed are part of the case (`ids`, `seed`), so `replay` rebuilds the same map.
 """
 import concurrent.futures
 import hashlib
@@ -72,7 +80,13 @@ CONFIGS = {
     "raw_preemph_dither": (None, [{"name": "preemph", "coeff": 0.9}, {"name": "dither", "coeff": 2.0}], []),
 }
 
-IDS = ["utt_b", "a-1", "zz.9", "M"]
+IDS = ["utt_b", "a-1", "zz.9", "M"]  # default of cases recorded before `ids` became part of the case
+# id sets (map order). Longer id first, then ids contained in it; plus an id that extends an earlier shorter one.
+ID_SETS = {
+    "unpadded": ["utt10", "utt1", "utt11", "10"],  # prefix of [0]; extension of [1]; suffix of [0]
+    "letters": ["ab", "b", "a", "abc"],  # suffix of [0]; prefix of [0]; extension of [0]
+    "speaker": ["spk1_ab", "spk1_a", "k1", "spk1_abc"],  # prefix of [0]; infix of [0]; extension of [0]
+}
 
 # ---------------------------------------------------------------------------------------------
 # the child process
@@ -179,17 +193,24 @@ sys.exit(rc)
 # ---------------------------------------------------------------------------------------------
 # fixture: inputs shared by all scenarios of one (config, n_utts, data_seed, seed)
 # ---------------------------------------------------------------------------------------------
+def _case_ids(case):
+    ids = case.get("ids")
+    return list(ids) if ids else IDS[: case["n_utts"]]
+
+
 def _fixture_key(case):
-    return (case["config"], case["n_utts"], case["data_seed"], case["seed"])
+    return (case["config"], case["n_utts"], case["data_seed"], case["seed"], tuple(_case_ids(case)))
 
 
 class _Fixture(object):
     def __init__(self, case, root):
         import torch
 
-        self.config, self.n, self.data_seed, self.seed = _fixture_key(case)
+        self.config, self.n, self.data_seed, self.seed = _fixture_key(case)[:4]
         self.dir = tempfile.mkdtemp(prefix="fx_", dir=root)
-        self.ids = IDS[: self.n]
+        self.ids = _case_ids(case)
+        if len(self.ids) != self.n or len(set(self.ids)) != self.n:
+            raise ValueError(f"case needs {self.n} distinct ids, got {self.ids}")
         raw = os.path.join(self.dir, "raw")
         os.makedirs(raw)
         fmts = ["npy", "wav", "pt", "npy"]
@@ -198,7 +219,7 @@ class _Fixture(object):
             rng = _common.make_rng(self.data_seed, f"c10:{u}:{i}")
             n = int(rng.integers(400, 900))
             sig = rng.integers(-(2**15), 2**15, n).astype(np.int16)
-            if fmts[i] == "wav":
+            if fmts[i % 4] == "wav":
                 path = os.path.join(raw, f"s{i}.wav")
                 w = wave.open(path, "wb")
                 w.setnchannels(1)
@@ -206,7 +227,7 @@ class _Fixture(object):
                 w.setframerate(8000)
                 w.writeframes(sig.tobytes())
                 w.close()
-            elif fmts[i] == "pt":
+            elif fmts[i % 4] == "pt":
                 path = os.path.join(raw, f"s{i}.pt")
                 torch.save(torch.from_numpy(sig.astype(np.float32)), path)
             else:
@@ -456,8 +477,8 @@ def _plan(tier, seed):
     rng = _common.make_rng(seed, "c10:plan:" + tier)
     cases = []
 
-    def base(config, n):
-        return {"config": config, "n_utts": n}
+    def base(config, n, idset):
+        return {"config": config, "n_utts": n, "ids": ID_SETS[idset][:n]}
 
     def mk(b, stages, workers=0, resume_workers=None):
         c = dict(b)
@@ -469,8 +490,9 @@ def _plan(tier, seed):
 
     if tier == "quick":
         n = 3
-        A = dict(base("stft_dither_deltas", n), data_seed=int(rng.integers(0, 2**31)), seed=int(rng.integers(0, 2**20)))
-        B = dict(base("raw_preemph_dither", n), data_seed=int(rng.integers(0, 2**31)), seed=int(rng.integers(0, 2**20)))
+        A = dict(base("stft_dither_deltas", n, "unpadded"), data_seed=int(rng.integers(0, 2**31)), seed=int(rng.integers(0, 2**20)))
+        B = dict(base("raw_preemph_dither", n, "letters"), data_seed=int(rng.integers(0, 2**31)), seed=int(rng.integers(0, 2**20)))
+        Z = dict(base("stft_dither_deltas", n, "speaker"), data_seed=int(rng.integers(0, 2**31)), seed=0)  # boundary --seed=0
         H, S = "hard", "soft"
         picks = [
             (A, "before_save", 2, H),  # = after manifest line 1: flush (I2) and seed index (resume) in one
@@ -496,11 +518,28 @@ def _plan(tier, seed):
         cases.append(mk(B, [], workers=2))
         # order: first kill cases, worker runs early enough to be inside the first wave
         cases = cases[:5] + cases[-4:] + cases[5:-4]
+        # --seed=0: resume after an interruption, the same command twice (kill before anything is saved, then the
+        # re-run), independence of --num-workers; inside the first wave as well
+        cases[3:3] = [
+            mk(Z, [{"point": "before_save", "k": 2, "kind": H}]),
+            mk(Z, [], workers=2),
+            mk(Z, [{"point": "before_save", "k": 1, "kind": S}]),
+        ]
     else:
         n = 4
-        A = dict(base("stft_dither_deltas", n), data_seed=int(rng.integers(0, 2**31)), seed=int(rng.integers(0, 2**20)))
-        B = dict(base("raw_preemph_dither", n), data_seed=int(rng.integers(0, 2**31)), seed=int(rng.integers(0, 2**20)))
-        A3 = dict(base("stft_dither_deltas", 3), data_seed=int(rng.integers(0, 2**31)), seed=int(rng.integers(0, 2**20)))
+        A = dict(base("stft_dither_deltas", n, "unpadded"), data_seed=int(rng.integers(0, 2**31)), seed=int(rng.integers(0, 2**20)))
+        B = dict(base("raw_preemph_dither", n, "letters"), data_seed=int(rng.integers(0, 2**31)), seed=int(rng.integers(0, 2**20)))
+        A3 = dict(base("stft_dither_deltas", 3, "speaker"), data_seed=int(rng.integers(0, 2**31)), seed=int(rng.integers(0, 2**20)))
+        Z = dict(base("raw_preemph_dither", n, "speaker"), data_seed=int(rng.integers(0, 2**31)), seed=0)  # boundary --seed=0
+        for pt, w, rw in (
+            ({"point": "before_save", "k": 2, "kind": "hard"}, 0, 0),
+            ({"point": "before_save", "k": 1, "kind": "soft"}, 0, 0),
+            ({"point": "after_save", "k": 3, "kind": "hard"}, 0, 2),
+            ({"point": "mid_manifest", "k": 2, "kind": "soft"}, 1, 0),
+        ):
+            cases.append(mk(Z, [pt], workers=w, resume_workers=rw))
+        for w in (1, 2):
+            cases.append(mk(Z, [], workers=w))
         for kind in ("hard", "soft"):
             for pt in _points(n):
                 cases.append(mk(A, [dict(pt, kind=kind)]))
@@ -579,10 +618,12 @@ def run(tier: str, seed: int) -> dict:
         "the same command to completion, or one fresh run with --num-workers w; non-trivial iff every requested kill "
         "fired (worker cases: always); each scenario is compared with an uninterrupted --num-workers 0 run",
         bound=(
-            "configs {STFT fbank + dither + deltas, raw samples + preemph + dither}, fixed --seed, "
+            "configs {STFT fbank + dither + deltas, raw samples + preemph + dither}, fixed --seed (random per fixture, "
+            "and one fixture with --seed=0), ids containing one another with the longer id first in the map "
+            f"({ID_SETS}), "
             + (
                 "3 utterances; 13 kill points covering every kind (before/mid/after save, mid manifest line, after return; "
-                "9 hard, 4 soft); one double-kill scenario; workers {1,2}"
+                "9 hard, 4 soft); one double-kill scenario; workers {1,2}; --seed=0: 2 kill points + workers 2"
                 if tier == "quick"
                 else "4 (and 3) utterances; ALL kill points (4 per utterance + after return) x {hard, soft} for both "
                 "configs; 4 kill cases with worker processes / changed worker count on resume; 8 double-kill "
